@@ -1,9 +1,196 @@
-/- Driver handlers, group State (stub; filled in by the group's model). -/
+/-
+  Driver handlers, group State (C10, C11, C12).
+
+  ss_model    : model of `nodal_state_space_model` on a network + value dictionaries
+                (inverse certificates found by the unverified `inverseExact`, then CHECKED
+                exactly before use) with every output row that is asked for;
+  ss_cert     : numpy's own two inverses checked as certificates (exact residual matrices);
+  ss_transfer : `row_c (s·1 − A)⁻¹ B + row_d` in exact arithmetic on given matrices (the
+                implementation's floats as exact rationals) — the C10 oracle;
+  ss_lyap     : `W·A + Aᵀ·W` exactly and its negative semidefiniteness up to a tolerance
+                (elimination without pivoting over `Rat`) — the C11 oracle;
+  ss_transient: the model's TransientSolution wiring applied to the implementation's own
+                `_x`, `_u` (C12 correspondence).
+-/
 import CC.Driver.Json
 import CC.Driver.LinAlg
+import CC.Model.StateSpace
 namespace CC
 open Lean
 
-def handlersState : List (String × Handler) := []
+def getDict (j : Json) (k : String) : Except String (ValDict GQ) := do
+  let a ← getArr j k
+  a.toList.mapM fun e => do
+    match e with
+    | .arr #[id, v] => pure (← id.getStr?, ← getGQ v)
+    | _ => throw "dictionary item [id, value] expected"
+
+def getStrs (j : Json) (k : String) : Except String (List String) := do
+  let a ← getArr j k
+  a.toList.mapM fun e => e.getStr?
+
+def reGQ (z : GQ) : GQ := ⟨z.re, 0⟩
+
+def jsonNats (l : List Nat) : Json := Json.arr (l.map fun (n : Nat) => (Json.num (JsonNumber.fromNat n))).toArray
+
+def jsonRow : Except Err (List GQ) → Json := jsonExcept jsonVec
+
+/-- both inverses, each checked exactly with the model's own product -/
+def ssCertificates (N : Net String GQ) (cvals lvals : ValDict GQ) (Delta : List (List GQ)) :
+    Except String (List (List GQ) × List (List GQ)) := do
+  let ny := N.nY
+  let At := ssAtilde reGQ N
+  match inverseExact At with
+  | none => throw "singular:Atilde"
+  | some Ainv =>
+    if Mx.mul ny ny ny At Ainv ≠ Mx.one ny then throw "internal: certificate Ainv failed" else
+    let ns := ssNStates N cvals lvals
+    let M := ssM N cvals lvals Delta Ainv
+    match inverseExact M with
+    | none => throw "singular:M"
+    | some S =>
+      if Mx.mul ns ns ns M S ≠ Mx.one ns then throw "internal: certificate S failed" else
+      pure (Ainv, S)
+
+def h_ssModel : Handler := fun j => do
+  let N ← getNet (← j.getObjVal? "net")
+  let cvals ← getDict j "cvals"
+  let lvals ← getDict j "lvals"
+  let pots ← getStrs j "pots"
+  let ids ← getStrs j "ids"
+  let spots ← getStrs j "spots"          -- arguments of the circuit-level stacking wrapper
+  let sids ← getStrs j "sids"
+  match N.check with
+  | .error e => pure (Json.mkObj [("err", e.tag)])
+  | .ok () =>
+  match ssDelta N cvals with
+  | .error e => pure (Json.mkObj [("err", e.tag)])
+  | .ok Delta =>
+    match ssCertificates N cvals lvals Delta with
+    | .error msg =>
+      if msg.startsWith "singular:" then pure (Json.mkObj [("singular", (msg.drop 9).toString)]) else throw msg
+    | .ok (Ainv, S) =>
+      match nodalStateSpaceModel N cvals lvals Ainv S with
+      | .error e => pure (Json.mkObj [("err", e.tag)])
+      | .ok m =>
+        let potRows := pots.map fun n => Json.mkObj [("n", Json.str n),
+          ("c", jsonVec (m.cRowPotential n)), ("d", jsonVec (m.dRowPotential n))]
+        let idRows := ids.map fun id => Json.mkObj [("id", Json.str id),
+          ("vc", jsonRow (m.cRowVoltage id)), ("vd", jsonRow (m.dRowVoltage id)),
+          ("ic", jsonRow (m.cRowCurrent id)), ("id_", jsonRow (m.dRowCurrent id))]
+        let stacked := match m.circuitModel spots sids sids with
+          | .ok s => Json.mkObj [("C", jsonMat s.C), ("D", jsonMat s.D),
+              ("check", match containerCheck (s.A.length, m.nStates) (s.B.length, m.nInputs)
+                           (s.C.length, m.nStates) (s.D.length, m.nInputs) with
+                        | .ok () => Json.num 0 | .error k => Json.num k)]
+          | .error e => Json.mkObj [("err", e.tag)]
+        pure (Json.mkObj [
+          ("nodes", jsonStrs N.nodes), ("vs", jsonStrs N.vsIds), ("cs", jsonStrs N.csIds),
+          ("src", jsonStrs N.srcIds), ("sources", jsonStrs m.sources),
+          ("colsS", jsonNats (ssColsS N lvals)), ("colsL", jsonNats (ssColsL N lvals)),
+          ("nStates", Json.num m.nStates), ("nInputs", Json.num m.nInputs),
+          ("A", jsonMat m.mats.A), ("B", jsonMat m.mats.B), ("C", jsonMat m.mats.C), ("D", jsonMat m.mats.D),
+          ("Ainv", jsonMat Ainv), ("S", jsonMat S),
+          ("pot", Json.arr potRows.toArray), ("el", Json.arr idRows.toArray), ("stacked", stacked)])
+
+/-- numpy's inverses as certificates: exact residuals `Ã·Ainv − 1` and `(DQᵀ Ainv DQ)·S − 1` -/
+def h_ssCert : Handler := fun j => do
+  let N ← getNet (← j.getObjVal? "net")
+  let cvals ← getDict j "cvals"
+  let lvals ← getDict j "lvals"
+  let Ainv ← getMat (← j.getObjVal? "Ainv")
+  let S ← getMat (← j.getObjVal? "S")
+  match ssDelta N cvals with
+  | .error e => pure (Json.mkObj [("err", e.tag)])
+  | .ok Delta =>
+    let ny := N.nY
+    let ns := ssNStates N cvals lvals
+    let r1 := Mx.sub ny ny (Mx.mul ny ny ny (ssAtilde reGQ N) Ainv) (Mx.one ny)
+    let r2 := Mx.sub ns ns (Mx.mul ns ns ns (ssM N cvals lvals Delta Ainv) S) (Mx.one ns)
+    pure (Json.mkObj [("r1", jsonMat r1), ("r2", jsonMat r2)])
+
+/-- `row_c (s − A)⁻¹ B + row_d` for every given pair of rows -/
+def h_ssTransfer : Handler := fun j => do
+  let A ← getMat (← j.getObjVal? "A")
+  let B ← getMat (← j.getObjVal? "B")
+  let s ← getGQK j "s"
+  let rows ← getArr j "rows"
+  let n := A.length
+  let nu ← getNat j "nu"
+  let sIA : List (List GQ) := Mx.ofFn n n fun i k => (if i = k then s else 0) - Mx.get A i k
+  match inverseExact sIA with
+  | none => pure (Json.mkObj [("singular", true)])
+  | some R =>
+    if Mx.mul n n n sIA R ≠ Mx.one n then throw "internal: resolvent certificate failed" else
+    let X := Mx.mul n n nu R B
+    let out ← rows.toList.mapM fun r => do
+      match r with
+      | .arr #[c, d] =>
+        let c ← getVec c
+        let d ← getVec d
+        pure (jsonVec ((List.range nu).map fun k =>
+          Mx.sumTo n (fun t => c.getD t 0 * Mx.get X t k) + d.getD k 0))
+      | _ => throw "row pair expected"
+    pure (Json.mkObj [("H", Json.arr out.toArray), ("X", jsonMat X)])
+
+/-- elimination without pivoting on a symmetric rational matrix: all pivots positive
+⇔ positive definite -/
+def posDefRat (n : Nat) (M0 : Array (Array Rat)) : Bool × Nat := Id.run do
+  let mut M := M0
+  for c in [0:n] do
+    let piv := (M[c]!)[c]!
+    if piv ≤ 0 then return (false, c)
+    for r in [c+1:n] do
+      let f := (M[r]!)[c]! / piv
+      if f ≠ 0 then
+        let rowc := M[c]!
+        M := M.set! r ((M[r]!.zip rowc).map fun (x, y) => x - f * y)
+  return (true, n)
+
+/-- `P = W·A + Aᵀ·W` exactly; negative semidefinite up to `tol`: `tol·1 − P ≻ 0` -/
+def h_ssLyap : Handler := fun j => do
+  let A ← getMat (← j.getObjVal? "A")
+  let W ← getVec (← j.getObjVal? "W")
+  let tol ← getRatK j "tol"
+  let n := A.length
+  let P : List (List GQ) := Mx.ofFn n n fun i k =>
+    W.getD i 0 * Mx.get A i k + Mx.get A k i * W.getD k 0
+  let sym := (Mx.transpose n n P == P)
+  let Mneg : Array (Array Rat) := ((List.range n).map fun i => ((List.range n).map fun k =>
+    (if i = k then tol else 0) - (Mx.get P i k).re).toArray).toArray
+  let (pd, at_) := posDefRat n Mneg
+  pure (Json.mkObj [("P", jsonMat P), ("sym", sym), ("nsd", pd), ("pivot", Json.num at_)])
+
+/-- the TransientSolution wiring of the model on given state / input samples -/
+def h_ssTransient : Handler := fun j => do
+  let sources ← getStrs j "sources"
+  let given ← getStrs j "given"            -- keys of the `input` dictionary
+  let X ← getMat (← j.getObjVal? "X")
+  let U ← getMat (← j.getObjVal? "U")      -- rows in the order of `given`
+  let nS ← getNat j "nSamples"
+  let rows ← getArr j "rows"
+  let input : String → Option (List GQ) := fun s => (given.zip U).lookup s
+  match transientU sources input with
+  | .error e => pure (Json.mkObj [("err", e.tag)])
+  | .ok Um =>
+    let out ← rows.toList.mapM fun r => do
+      match r with
+      | .arr #[c, d] => pure (jsonVec (transientOutput nS (← getVec c) (← getVec d) X Um))
+      | _ => throw "row pair expected"
+    pure (Json.mkObj [("U", jsonMat Um), ("x0", jsonVec (transientX0 X.length)), ("y", Json.arr out.toArray)])
+
+/-- the container's five shape checks on arbitrary shapes: 0 = accepted, k = check k raises -/
+def h_ssContainer : Handler := fun j => do
+  let sh (k : String) : Except String (Nat × Nat) := do
+    match ← getArr j k with
+    | #[r, c] => pure (← r.getNat?, ← c.getNat?)
+    | _ => throw "shape [r, c] expected"
+  match containerCheck (← sh "a") (← sh "b") (← sh "c") (← sh "d") with
+  | .ok () => pure (Json.mkObj [("check", Json.num (0 : Nat))])
+  | .error k => pure (Json.mkObj [("check", Json.num k)])
+
+def handlersState : List (String × Handler) :=
+  [("ss_container", h_ssContainer), ("ss_model", h_ssModel), ("ss_cert", h_ssCert), ("ss_transfer", h_ssTransfer),
+   ("ss_lyap", h_ssLyap), ("ss_transient", h_ssTransient)]
 
 end CC
